@@ -339,6 +339,7 @@ class TerminalDevice(Device):
             if len(values) != len(var_types):
                 return False
 
+            converted = []
             for v, vtype in reversed(list(zip(values, var_types))):
                 if vtype == 1:  # INTEGER
                     try:
@@ -347,7 +348,7 @@ class TerminalDevice(Device):
                         return False
                     if v < -32768 or v > 32767:
                         return False
-                    self.cpu.push(CellType.INTEGER, v)
+                    converted.append((CellType.INTEGER, v))
                 elif vtype == 2:  # LONG
                     try:
                         v = int(v)
@@ -355,7 +356,7 @@ class TerminalDevice(Device):
                         return False
                     if v < -2**31 or v >= 2**31:
                         return False
-                    self.cpu.push(CellType.LONG, v)
+                    converted.append((CellType.LONG, v))
                 elif vtype == 3:  # SINGLE
                     try:
                         v = float(v)
@@ -363,7 +364,7 @@ class TerminalDevice(Device):
                         return False
                     if not expr.Type.SINGLE.can_hold(v):
                         return False
-                    self.cpu.push(CellType.SINGLE, v)
+                    converted.append((CellType.SINGLE, v))
                 elif vtype == 4:  # DOUBLE
                     try:
                         v = float(v)
@@ -371,14 +372,19 @@ class TerminalDevice(Device):
                         return False
                     if not expr.Type.DOUBLE.can_hold(v):
                         return False
-                    self.cpu.push(CellType.DOUBLE, v)
+                    converted.append((CellType.DOUBLE, v))
                 elif vtype == 5:  # STRING
-                    self.cpu.push(CellType.STRING, v)
+                    converted.append((CellType.STRING, v))
                 else:
                     self._device_error(
                         error_code=Device.Error.BAD_ARG_VALUE,
                         error_msg=f'Unknown var type {vtype} for INPUT',
                     )
+
+            # push only once the whole line has been accepted, so that
+            # a rejected line leaves nothing on the operand stack
+            for value_type, value in converted:
+                self.cpu.push(value_type, value)
 
             return True
 
